@@ -864,6 +864,59 @@ func genHard(g *core.Gen) {
 			gc(g, "dec-len66", true, "C16 dec "+n.name+" "+hx(s))
 		}
 	}
+	// mixed case, exhaustively: every valid segwit address kind in upper-case form with exactly ONE character lower-cased
+	// (every position), and in lower-case form with exactly one upper-cased; all must be rejected
+	flipOne := func(str []byte, toLower bool, class string, op string) {
+		for i := range str {
+			t := append([]byte{}, str...)
+			switch {
+			case toLower && t[i] >= 'A' && t[i] <= 'Z':
+				t[i] += 32
+			case !toLower && t[i] >= 'a' && t[i] <= 'z':
+				t[i] -= 32
+			default:
+				continue
+			}
+			gc(g, class, true, "C16 "+op+" "+hx(t))
+		}
+	}
+	for ki, kind := range []string{"wpkh", "wsh", "tr", "p2a"} {
+		n := ns[(ki*2+1)%len(ns)]
+		l := map[string]int{"wpkh": 20, "wsh": 32, "tr": 32, "p2a": 0}[kind]
+		if ad, err := mkAddr(kind, n.p, r.Bytes(l)); err == nil {
+			str := []byte(ad.String())
+			flipOne(upper(str), true, "dec-onelower", "dec "+n.name)
+			flipOne(str, false, "dec-oneupper", "dec "+n.name)
+		}
+	}
+	// every charset symbol once in the data part (so every letter of the charset, a..z boundary letters included,
+	// appears as the single odd-case character), for both checksum variants
+	all32 := make([]byte, 32)
+	for i := range all32 {
+		all32[i] = byte(i)
+	}
+	for _, m := range []bool{false, true} {
+		var str string
+		if m {
+			str, _ = bech32.EncodeM("az", all32)
+		} else {
+			str, _ = bech32.Encode("az", all32)
+		}
+		flipOne(upper([]byte(str)), true, "bdec-onelower", "bdec")
+		flipOne([]byte(str), false, "bdec-oneupper", "bdec")
+		flipOne(upper([]byte(str)), true, "bdec-onelower", "bdec2")
+	}
+	// HRP characters at the edges of the letter ranges: a z A Z are letters, their neighbours ` { @ [ are not
+	for _, hrp := range []string{"a", "z", "az", "`", "{", "@", "[", "`{@[", "a`z{", "y", "b"} {
+		d := rand5(r, 8)
+		lo, _ := bech32.Encode(hrp, d) // Encode lower-cases the HRP
+		gc(g, "bdec-hrp-edge", true, "C16 bdec "+hx([]byte(lo)))
+		gc(g, "bdec-hrp-edge", true, "C16 bdec "+hx(upper([]byte(lo))))
+		one := strings.LastIndexByte(lo, '1')
+		// HRP in one case, data part in the other
+		gc(g, "bdec-hrp-edge", true, "C16 bdec "+hx([]byte(strings.ToUpper(lo[:one])+lo[one:])))
+		gc(g, "bdec-hrp-edge", true, "C16 bdec "+hx([]byte(lo[:one]+strings.ToUpper(lo[one:]))))
+	}
 	// configuration change: the same string before and after its network is registered
 	for k := 0; k < g.N(6, 40); k++ {
 		hrp := "z" + strings.ToLower(strconv.FormatUint(r.U64()&0xffffffff, 36))
